@@ -1,6 +1,166 @@
-/- Driver/C01 — stub until the property's model driver is written. -/
+/-
+Driver/C01 — runs the executable BLTE model on protocol lines (see harness/src/bin/c01.rs).
+The parameters of the model are instantiated per request line: zlib/LZ4 by the graph of the real
+compressor that the harness puts on the line (`M:plain:comp,…`; decompress = the inverse graph,
+i.e. the law `decompress (compress x) = x` the theorems assume and the harness checks on the real
+library), MD5 by Spec/Md5, the key store by the `name:key,…` list.
+-/
 import Driver.Common
-open Drv
+import Cascette.Model.Blte
+import Cascette.Spec.Md5
+open Cascette Drv
+open Cascette.Model.Blte
+
+def modeOf : String → Option Mode
+  | "N" => some .none | "Z" => some .zlib | "4" => some .lz4 | "E" => some .enc | "F" => some .frame
+  | _ => none
+
+def errStr : Err → String
+  | .compression => "err:compression"
+  | .chunkCount => "err:chunk-count"
+  | .chunkSize => "err:chunk-size"
+  | .unsupported => "err:unsupported"
+  | .iv => "err:iv"
+  | .nested => "err:nested"
+  | .singleEnc => "err:single-enc"
+  | .parse => "err:parse"
+
+/-- one point of a parameter's graph: `dOnly = false`: `compress m a = b` (and so `decompress m b
+= a`); `dOnly = true`: `decompress m a = b` (`none` = the library refused), for inputs outside the
+compressor's range (garbage after decryption with a foreign block index). -/
+structure Ent where
+  dOnly : Bool
+  m : Mode
+  a : Bytes
+  b : Option Bytes
+
+abbrev Tab := List Ent
+
+def parseTab (s : String) : Option Tab :=
+  if s == "-" then some [] else
+  (s.splitOn ",").mapM fun ent =>
+    match ent.splitOn ":" with
+    | [m, p, c] =>
+      if m.startsWith "d" then
+        match modeOf (m.drop 1).toString, parseHex p with
+        | some m, some p => if c == "!" then some ⟨true, m, p, none⟩ else (parseHex c).map fun c => ⟨true, m, p, some c⟩
+        | _, _ => none
+      else
+        match modeOf m, parseHex p, parseHex c with
+        | some m, some p, some c => some ⟨false, m, p, some c⟩
+        | _, _, _ => none
+    | _ => none
+
+def codecOf (t : Tab) : Codec where
+  compress m x := (t.find? fun e => !e.dOnly ∧ e.m = m ∧ e.a = x).bind (·.b)
+  decompress m c :=
+    match t.find? fun e => e.dOnly ∧ e.m = m ∧ e.a = c with
+    | some e => e.b
+    | none => (t.find? fun e => !e.dOnly ∧ e.m = m ∧ e.b = some c).map (·.a)
+
+def parseKeys (s : String) : Option (List (Nat × Bytes)) :=
+  if s == "-" then some [] else
+  (s.splitOn ",").mapM fun ent =>
+    match ent.splitOn ":" with
+    | [n, k] =>
+      match n.toNat?, parseHex k with
+      | some n, some k => if k.length = 16 then some (n, k) else none
+      | _, _ => none
+    | _ => none
+
+/-- `HashMap::insert`: the last entry for a name wins. -/
+def keysOf (l : List (Nat × Bytes)) (n : Nat) : Option Bytes :=
+  (l.reverse.find? fun e => e.1 = n).map (·.2)
+
+def specOf (et name iv key : String) : Option (EncSpec × Bytes) :=
+  match et.toNat?, name.toNat?, parseHex iv, parseHex key with
+  | some et, some name, some iv, some key =>
+    if et < 256 ∧ name < 2 ^ 64 ∧ iv.length = 4 ∧ key.length = 16 then
+      some (⟨name, iv, BitVec.ofNat 8 et⟩, key)
+    else none
+  | _, _, _, _ => none
+
+abbrev St := Option Builder
+
+def stepResp (st : St) (cd : Codec) (op : Op) : St × String :=
+  match st with
+  | none => (none, "dead")
+  | some b =>
+    match step cd b op with
+    | .ok b' => (some b', "ok")
+    | .error e => (none, errStr e)
+
+def rowsLine (f : File) : String :=
+  match f.table with
+  | none => s!"single chunks={f.chunks.length}"
+  | some rows =>
+    let rs := rows.map fun r => s!"{r.csize}:{r.dsize}:{hexOf r.checksum}"
+    s!"table hs={f.headerSize} n={rows.length} " ++ (if rs.isEmpty then "-" else ",".intercalate rs)
+
+def outBytes : Except Err Bytes → String
+  | .ok b => "ok " ++ hexOf b
+  | .error e => errStr e
+
+def handle (st : St) : List String → St × String
+  | ["begin"] => (some Builder.init, "ok")
+  | ["mode", m] =>
+    match modeOf m with
+    | some m => stepResp st (codecOf []) (.withCompression m)
+    | none => (st, "bad-op")
+  | ["cs", n] =>
+    match n.toNat? with
+    | some n => stepResp st (codecOf []) (.withChunkSize n)
+    | none => (st, "bad-op")
+  | ["enc", et, name, iv, key] =>
+    match specOf et name iv key with
+    | some (s, k) => stepResp st (codecOf []) (.withEncryption s k)
+    | none => (st, "bad-op")
+  | ["noenc"] => stepResp st (codecOf []) .withoutEncryption
+  | ["add", d, tab] =>
+    match parseHex d, parseTab tab with
+    | some d, some t => stepResp st (codecOf t) (.addData d)
+    | _, _ => (st, "bad-op")
+  | ["mixed", d, "none", tab] =>
+    match parseHex d, parseTab tab with
+    | some d, some t => stepResp st (codecOf t) (.addMixed d none)
+    | _, _ => (st, "bad-op")
+  | ["mixed", d, et, name, iv, key, tab] =>
+    match parseHex d, specOf et name iv key, parseTab tab with
+    | some d, some e, some t => stepResp st (codecOf t) (.addMixed d (some e))
+    | _, _, _ => (st, "bad-op")
+  | ["encdata", d, et, name, iv, key, idx, tab] =>
+    match parseHex d, specOf et name iv key, idx.toNat?, parseTab tab with
+    | some d, some (s, k), some idx, some t => stepResp st (codecOf t) (.addEncrypted d s k idx)
+    | _, _, _, _ => (st, "bad-op")
+  | ["chunk", m, d, tab] =>
+    match modeOf m, parseHex d, parseTab tab with
+    | some m, some d, some t => stepResp st (codecOf t) (.addChunkNew d m)
+    | _, _, _ => (st, "bad-op")
+  | ["build"] =>
+    match st with
+    | none => (none, "dead")
+    | some b =>
+      match build Spec.Md5.md5 b with
+      | .ok f => (none, "ok " ++ hexOf (serialize f))
+      | .error e => (none, errStr e)
+  | ["dec", f, keys, tab] =>
+    match parseHex f, parseKeys keys, parseTab tab with
+    | some f, some ks, some t =>
+      (st, outBytes (decodeBytes (codecOf t) (keysOf ks) f))
+    | _, _, _ => (st, "bad-op")
+  | ["decplain", f, tab] =>
+    match parseHex f, parseTab tab with
+    | some f, some t =>
+      (st, outBytes (decodePlainBytes (codecOf t) f))
+    | _, _ => (st, "bad-op")
+  | ["rows", f] =>
+    match parseHex f with
+    | some f =>
+      match parse f with
+      | .ok file => (st, rowsLine file)
+      | .error e => (st, errStr e)
+    | none => (st, "bad-op")
+  | _ => (st, "bad-op")
 
 def main : IO Unit := do
-  loopPure (← IO.getStdin) (← IO.getStdout) (fun _ => "bad-op")
+  loopState (← IO.getStdin) (← IO.getStdout) handle (none : St)
